@@ -372,6 +372,22 @@ def sweep(rep, r, nscenes):
                 except Exception as e:                          # noqa: BLE001
                     rep.violation(f'representation-raises:{name}:nddata:{type(e).__name__}', f'{name} raises {e!r} for an NDData input',
                                   dict(rp, representation='nddata'))
+                if name == 'PSFPhotometry':
+                    # the same errors stored as variances / inverse variances (PSFPhotometry converts every NDUncertainty kind)
+                    from astropy.nddata import InverseVariance, VarianceUncertainty
+                    for uname, unc in (('variance', VarianceUncertainty(rep_f64(sc['error']) ** 2)), ('inverse-variance', InverseVariance(1.0 / rep_f64(sc['error']) ** 2))):
+                        rep.case((name, 'nddata-' + uname, sc['data'].tobytes()), True, kind=f'{name}:nddata-{uname}')
+                        rep.probe_only += 1
+                        try:
+                            got = call(nd_variant(name), sc, NDData(rep_f64(sc['data']), uncertainty=unc, mask=sc['mask']), None)
+                            for kk, bv in base.items():
+                                if kk in got and not close(bv, num(got[kk]), 1e-8):
+                                    rep.violation(f'representation-differs:{name}:nddata-{uname}:{kk.split(":")[1]}',
+                                                  f'{name} [{kk}] differs when the NDData uncertainty is given as {uname}', dict(rp, representation='nddata-' + uname))
+                                    break
+                        except Exception as e:                  # noqa: BLE001
+                            rep.violation(f'representation-raises:{name}:nddata-{uname}:{type(e).__name__}', f'{name} raises {e!r} for NDData with a {uname} uncertainty',
+                                          dict(rp, representation='nddata-' + uname))
             # Quantities: same numbers, flux-like outputs carry the unit; mixing is rejected
             rep.case((name, 'quantity', sc['data'].tobytes()), True, kind=f'{name}:quantity')
             rep.probe_only += 1
